@@ -465,3 +465,268 @@ func fieldTextIndependentOfSiblings(w *World, r *Report, prop string) {
 	}
 	r.note("%s: %d loop-carried flags in loops over Packet.Fields", rule, n)
 }
+
+// */metadata-by-type-not-by-name (C01, C04, C06, C08): the MetaData table maps *type* names to attributes. Looking it up under the
+// *name* of a member is right only for a declaration that has no type of its own (`BodyLen @lengthOf(Body),` - the grammar's
+// `type? name=IDENTIFIER`): where a type is written, it decides the width. A lookup keyed by the name token that is not confined to
+// the "no type written" edge gives `u16 BodyLen @lengthOf(Body)` the width of an unrelated entry that happens to be called BodyLen -
+// and the prefixed spelling `@lengthOf(Body) u16 BodyLen` another one.
+func metadataByTypeNotByName(w *World, r *Report, prop string) {
+	rule := prop + "/metadata-by-type-not-by-name"
+	hasTypeChild := func(t types.Type) bool {
+		ms := types.NewMethodSet(t)
+		for i := 0; i < ms.Len(); i++ {
+			if ms.At(i).Obj().Name() == "Type_" {
+				return true
+			}
+		}
+		return false
+	}
+	methodCall := func(v ssa.Value) (name string, recv ssa.Value) {
+		c, ok := stripIdentity(v).(*ssa.Call)
+		if !ok {
+			return "", nil
+		}
+		if c.Call.IsInvoke() {
+			return c.Call.Method.Name(), c.Call.Value
+		}
+		if f := c.Call.StaticCallee(); f != nil && f.Signature.Recv() != nil && len(c.Call.Args) > 0 {
+			return f.Name(), c.Call.Args[0]
+		}
+		return "", nil
+	}
+	noTypeEdge := func(blk *ssa.BasicBlock) bool {
+		for _, b := range blk.Parent().Blocks {
+			cond := branchCond(b)
+			if cond == nil {
+				continue
+			}
+			x, nn, ok := nilTest(cond)
+			if !ok {
+				continue
+			}
+			if m, _ := methodCall(x); m == "Type_" && edgeDominates(b, 1-nn, blk) {
+				return true
+			}
+		}
+		return false
+	}
+	type origin struct {
+		fn   *ssa.Function
+		what string
+		ok   bool
+		pos  string
+	}
+	subj := map[*ssa.Function]bool{}
+	for _, fn := range parsePhaseFuncs(w) {
+		subj[fn] = true
+	}
+	var originsOf func(v ssa.Value, at *ssa.BasicBlock, depth int, seen map[ssa.Value]bool) []origin
+	originsOf = func(v ssa.Value, at *ssa.BasicBlock, depth int, seen map[ssa.Value]bool) []origin {
+		v = stripIdentity(v)
+		if depth > 4 || seen[v] {
+			return nil
+		}
+		seen[v] = true
+		switch x := v.(type) {
+		case *ssa.Phi:
+			var out []origin
+			for _, e := range x.Edges {
+				out = append(out, originsOf(e, at, depth, seen)...)
+			}
+			return out
+		case *ssa.Parameter:
+			fn := x.Parent()
+			idx := -1
+			for i, p := range fn.Params {
+				if p == x {
+					idx = i
+				}
+			}
+			var out []origin
+			for g := range subj {
+				forEachInstr(g, func(b *ssa.BasicBlock, ins ssa.Instruction) {
+					c, ok := ins.(ssa.CallInstruction)
+					if !ok || c.Common().StaticCallee() != fn || idx >= len(c.Common().Args) {
+						return
+					}
+					out = append(out, originsOf(c.Common().Args[idx], b, depth+1, seen)...)
+				})
+			}
+			return out
+		case *ssa.UnOp:
+			if x.Op == token.MUL {
+				if tn, f, pkg, ok := fieldOf(x.X); ok && strings.HasSuffix(pkg, "/internal/model") && tn == "Field" && f == "Name" {
+					return []origin{{at.Parent(), "Field.Name", noTypeEdge(at), w.instrPos(x)}}
+				}
+			}
+		case *ssa.Call:
+			if m, recv := methodCall(x); m == "GetText" {
+				if m2, recv2 := methodCall(recv); m2 == "GetName" && recv2 != nil && hasTypeChild(recv2.Type()) {
+					return []origin{{at.Parent(), "the name token of a declaration that may carry a type", noTypeEdge(at), w.instrPos(x)}}
+				}
+			}
+		}
+		return nil
+	}
+	n := 0
+	for _, fn := range parsePhaseFuncs(w) {
+		forEachInstr(fn, func(b *ssa.BasicBlock, ins ssa.Instruction) {
+			lk, ok := ins.(*ssa.Lookup)
+			if !ok || modelFieldOfAddr(lk.X) != "BinaryModel.MetaDataMap" {
+				return
+			}
+			for _, o := range originsOf(lk.Index, b, 0, map[ssa.Value]bool{}) {
+				if want := map[string]string{"C04": "LengthFieldAttribute", "C06": "CheckSumFieldAttribute"}[prop]; want != "" {
+					builds := false
+					forEachInstr(o.fn, func(_ *ssa.BasicBlock, i2 ssa.Instruction) {
+						if al, ok := i2.(*ssa.Alloc); ok && modelTypeName(al.Type().(*types.Pointer).Elem()) == want {
+							builds = true
+						}
+					})
+					if !builds {
+						continue
+					}
+				}
+				n++
+				key := fnKey(o.fn) + ": the MetaData table is consulted under a member's name only where no type is written"
+				if o.ok {
+					r.pass(rule, key, o.pos, o.what)
+				} else {
+					r.fail(rule, key, o.pos, "the MetaData table is looked up (at "+w.instrPos(lk)+") under "+o.what+" on a path that is not the \"no type written\" edge: a type written in the declaration loses to an unrelated MetaData entry of the member's name, and the two spellings of an attribute (in front of / behind the member) compile differently")
+				}
+			}
+		})
+	}
+	r.note("%s: %d name-keyed lookups in the MetaData table", rule, n)
+}
+
+// mentionsFieldThroughLen: mentionsField, also through len() / cap() of the member.
+func mentionsFieldThroughLen(v ssa.Value, name string, depth int) bool {
+	if depth > 8 || v == nil {
+		return false
+	}
+	switch x := v.(type) {
+	case *ssa.Call:
+		if bi, ok := x.Call.Value.(*ssa.Builtin); ok && (bi.Name() == "len" || bi.Name() == "cap") && len(x.Call.Args) == 1 {
+			return mentionsFieldThroughLen(x.Call.Args[0], name, depth+1)
+		}
+		return false
+	case *ssa.BinOp:
+		return mentionsFieldThroughLen(x.X, name, depth+1) || mentionsFieldThroughLen(x.Y, name, depth+1)
+	case *ssa.UnOp:
+		return mentionsFieldThroughLen(x.X, name, depth+1)
+	}
+	return mentionsField(v, name, depth)
+}
+
+// C11|C12/resolver-descends-into-inline-objects: the pass that resolves the packet a member names (a checked look-up in the packet
+// table whose miss edge records a diagnostic) also looks at the members of inline objects: somewhere in its unit the field list of an
+// object attribute's packet (`attr.RefPacket.Fields`) is read. The visitor may store an unchecked look-up first (a forward reference
+// is nil then) because this pass comes after it - for every member the pass reaches. Without the descent, `Leg { Undeclared x, }`
+// is accepted and every generator dereferences the nil link.
+func resolverDescendsIntoInline(w *World, r *Report, prop string) {
+	rule := prop + "/resolver-descends-into-inline-objects"
+	var resolvers []*ssa.Function
+	for _, fn := range parsePhaseFuncs(w) {
+		isRes := false
+		forEachInstr(fn, func(b *ssa.BasicBlock, ins ssa.Instruction) {
+			lk, ok := ins.(*ssa.Lookup)
+			if !ok || !lk.CommaOk || modelFieldOfAddr(lk.X) != "BinaryModel.PacketsMap" {
+				return
+			}
+			// keyed by the packet name of an object attribute
+			if !mentionsField(lk.Index, "PacketName", 0) {
+				return
+			}
+			var okFlag ssa.Value
+			if lk.Referrers() != nil {
+				for _, ref := range *lk.Referrers() {
+					if e, isE := ref.(*ssa.Extract); isE && e.Index == 1 {
+						okFlag = e
+					}
+				}
+			}
+			if okFlag == nil {
+				return
+			}
+			for _, bb := range fn.Blocks {
+				c := branchCond(bb)
+				if c == nil {
+					continue
+				}
+				miss := -1
+				if sameValue(c, okFlag) {
+					miss = 1
+				} else if u, isU := c.(*ssa.UnOp); isU && u.Op == token.NOT && sameValue(u.X, okFlag) {
+					miss = 0
+				}
+				if miss < 0 {
+					continue
+				}
+				for _, d := range fn.Blocks {
+					if !edgeDominates(bb, miss, d) {
+						continue
+					}
+					for _, di := range d.Instrs {
+						if isAddSyntaxError(di) {
+							isRes = true
+						}
+					}
+				}
+			}
+		})
+		if isRes {
+			resolvers = append(resolvers, fn)
+		}
+	}
+	if len(resolvers) == 0 {
+		r.pass(rule, "a resolving pass over object members", "internal/model/model.go", "no routine resolves object members by a checked look-up with a diagnostic on the miss edge: judged by C12/resolution")
+		return
+	}
+	for _, res := range resolvers {
+		// the unit of the pass: the resolver, what it calls, and what its callers call (a walker that hands it each member)
+		roots := []*ssa.Function{res}
+		top := res
+		for top.Parent() != nil {
+			top = top.Parent()
+			roots = append(roots, top)
+		}
+		if n := w.CallGraph().Nodes[top]; n != nil {
+			for _, e := range n.In {
+				if c := e.Caller.Func; c != nil && w.isSubjectFunc(c) && pkgOfFunc(c) != w.Cmd {
+					roots = append(roots, c)
+				}
+			}
+		}
+		unit := w.subjectsOnly(w.reachable(roots, func(f *ssa.Function) bool { return w.isSubjectFunc(f) && !isGeneratorFunc(f) }))
+		for _, f := range roots {
+			unit[f] = true
+		}
+		descends := ""
+		for _, fn := range sortedFuncs(unit) {
+			if recvNamedCore(fn) == "PacketDslVisitorImpl" || recvNamedCore(fn) == "PacketDslFormattor" {
+				continue // the tree walk builds the inline object; it is not the resolving pass
+			}
+			forEachInstr(fn, func(_ *ssa.BasicBlock, ins ssa.Instruction) {
+				fa, ok := ins.(*ssa.FieldAddr)
+				if !ok || descends != "" {
+					return
+				}
+				if tn, f, _, _ := fieldOf(fa); tn != "Packet" || f != "Fields" {
+					return
+				}
+				if mentionsField(fa.X, "RefPacket", 0) {
+					descends = fnKey(fn) + " at " + w.instrPos(fa)
+				}
+			})
+		}
+		key := fnKey(res) + ": the pass that resolves object members reaches the members of inline objects"
+		if descends != "" {
+			r.pass(rule, key, w.pos(res.Pos()), "reads RefPacket.Fields in "+descends)
+		} else {
+			r.fail(rule, key, w.pos(res.Pos()), "nothing in the unit of this pass reads the field list of an object attribute's packet (RefPacket.Fields): the members of inline objects are never resolved or checked - an undeclared (or later declared) packet named inside an inline object stays a nil link that every generator dereferences")
+		}
+	}
+}
+
